@@ -115,7 +115,7 @@ func (e *Engine) ensureInit(pkg *ssa.Package) {
 	e.journalOn = false
 	e.inInit++
 	// init runs on a scratch path so that it cannot consume decisions
-	e.path = &PathState{pcSet: map[*Term]bool{}, fresh: map[string]int{}, reached: map[string]bool{}}
+	e.path = newPathState()
 	defer func() {
 		e.inInit--
 		e.journalOn, e.curFrame, e.path = savedJ, savedFrame, savedPath
@@ -425,7 +425,17 @@ func (fr *frame) visitInstr(instr ssa.Instruction) continuation {
 		n := e.concretizeSize(lt, "make len")
 		c := n
 		if ct != lt {
-			c = e.concretizeSize(ct, "make cap")
+			if lt.IsConst() && !ct.IsConst() {
+				// a symbolic capacity *hint* with a concrete length: the capacity is not
+				// concretised (it would tie all inputs together); the slice gets cap == len.
+				// Only cap() and append's reuse of spare capacity could observe the difference.
+				c64 := e.tt.Resize(ct, 64, true)
+				if e.Decide(e.tt.Slt(c64, e.tt.Const(64, uint64(n)))) {
+					panic(e.targetPanicStr("runtime error: makeslice: cap out of range"))
+				}
+			} else {
+				c = e.concretizeSize(ct, "make cap")
+			}
 		}
 		if c < n {
 			panic(e.targetPanicStr("runtime error: makeslice: cap out of range"))
@@ -485,6 +495,10 @@ func (fr *frame) visitInstr(instr ssa.Instruction) continuation {
 		idx := fr.get(instr.Index).(*Term)
 		switch x := x.(type) {
 		case []Value:
+			if !idx.IsConst() && len(x) > 2 && onlyLoaded(instr) {
+				fr.env[instr] = e.symElemPtr(x, idx, instr.Index.Type())
+				break
+			}
 			i := e.indexCheck(idx, instr.Index.Type(), len(x))
 			fr.env[instr] = &x[i]
 		case *Value:
@@ -492,6 +506,10 @@ func (fr *frame) visitInstr(instr ssa.Instruction) continuation {
 				panic(e.targetPanicStr("runtime error: invalid memory address or nil pointer dereference"))
 			}
 			a := (*x).(Array)
+			if !idx.IsConst() && len(a) > 2 && onlyLoaded(instr) {
+				fr.env[instr] = e.symElemPtr([]Value(a), idx, instr.Index.Type())
+				break
+			}
 			i := e.indexCheck(idx, instr.Index.Type(), len(a))
 			fr.env[instr] = &a[i]
 		default:
@@ -504,9 +522,22 @@ func (fr *frame) visitInstr(instr ssa.Instruction) continuation {
 		idx := fr.get(instr.Index).(*Term)
 		switch x := x.(type) {
 		case Array:
+			if !idx.IsConst() && len(x) > 2 {
+				fr.env[instr] = e.symLoad(e.symElemPtr([]Value(x), idx, instr.Index.Type()).(SymElemPtr))
+				break
+			}
 			i := e.indexCheck(idx, instr.Index.Type(), len(x))
 			fr.env[instr] = copyVal(x[i])
 		case Str:
+			if !idx.IsConst() && x.Len() > 2 {
+				bs := e.strBytes(x)
+				cells := make([]Value, len(bs))
+				for i, b := range bs {
+					cells[i] = b
+				}
+				fr.env[instr] = e.symLoad(e.symElemPtr(cells, idx, instr.Index.Type()).(SymElemPtr))
+				break
+			}
 			i := e.indexCheck(idx, instr.Index.Type(), x.Len())
 			fr.env[instr] = e.strByte(x, i)
 		default:
